@@ -198,7 +198,14 @@ func genCase(rng *rand.Rand, variant string, progs [][]call, style int) hx.Case 
 
 // dfs enumerates every schedule of progs with at most `bound` preemptions (a switch away from a
 // goroutine that could still run and is not blocked), re-executing the prefix for every node.
-func dfs(variant string, progs [][]call, bound int, emit func(hx.Case), limit *int) {
+func dfs(variant string, progs [][]call, bound int, emit0 func(hx.Case), limit *int) {
+	tag := "dfs:" + strings.TrimPrefix(caseLine("", progs), "case gsync  | ")
+	emit := func(c hx.Case) {
+		if os.Getenv("VERIF_DFSTAGS") != "" {
+			c.Tags = append(c.Tags, tag)
+		}
+		emit0(c)
+	}
 	// iterative deepening on the number of preemptions: all schedules with 0, then exactly 1, then
 	// exactly 2, ... preemptions, so that the limit cuts off the least likely schedules first
 	for b := 0; b <= bound; b++ {
@@ -207,16 +214,30 @@ func dfs(variant string, progs [][]call, bound int, emit func(hx.Case), limit *i
 }
 
 func dfsExact(variant string, progs [][]call, bound int, emit func(hx.Case), limit *int) {
-	var rec func(prefix []int, last int, used int)
-	rec = func(prefix []int, last int, used int) {
-		if *limit <= 0 {
-			return
-		}
+	// build re-executes a prefix from scratch
+	build := func(prefix []int) (*driver, bool) {
 		d := newDriver(variant, progs)
 		blockedLast := false
 		for _, t := range prefix {
 			out := d.do(fmt.Sprintf("gs step %d", t))
 			blockedLast = strings.HasPrefix(out, "blocked")
+		}
+		return d, blockedLast
+	}
+	// rec visits the node `prefix`. d, when not nil, is a driver that has executed exactly prefix
+	// (handed down from the parent to its FIRST child, so that a schedule costs one execution from
+	// its last branching point instead of one execution per node); the other children re-execute.
+	// Same nodes, same order, same cases as re-executing at every node.
+	var rec func(d *driver, blockedLast bool, prefix []int, last int, used int)
+	rec = func(d *driver, blockedLast bool, prefix []int, last int, used int) {
+		if *limit <= 0 {
+			if d != nil {
+				d.g.s.Kill()
+			}
+			return
+		}
+		if d == nil {
+			d, blockedLast = build(prefix)
 		}
 		live := d.live()
 		if len(live) == 0 || len(prefix) >= 60 {
@@ -231,11 +252,12 @@ func dfsExact(variant string, progs [][]call, bound int, emit func(hx.Case), lim
 			emit(hx.Case{Domain: true, Nontrivial: true, Lines: d.lines, Tags: []string{"dfs"}})
 			return
 		}
-		d.g.s.Kill()
 		lastLive := false
 		for _, x := range live {
 			lastLive = lastLive || x == last
 		}
+		type kid struct{ t, cost int }
+		var kids []kid
 		for _, t := range live {
 			cost := 0
 			if lastLive && t != last && !blockedLast {
@@ -247,10 +269,23 @@ func dfsExact(variant string, progs [][]call, bound int, emit func(hx.Case), lim
 			if used+cost > bound {
 				continue
 			}
-			rec(append(append([]int{}, prefix...), t), t, used+cost)
+			kids = append(kids, kid{t, cost})
+		}
+		if len(kids) == 0 {
+			d.g.s.Kill()
+			return
+		}
+		for i, k := range kids {
+			np := append(append([]int{}, prefix...), k.t)
+			if i == 0 {
+				out := d.do(fmt.Sprintf("gs step %d", k.t))
+				rec(d, strings.HasPrefix(out, "blocked"), np, k.t, used+k.cost)
+			} else {
+				rec(nil, false, np, k.t, used+k.cost)
+			}
 		}
 	}
-	rec(nil, -1, 0)
+	rec(nil, false, nil, -1, 0)
 }
 
 var dfsPrograms = [][][]call{
